@@ -515,7 +515,8 @@ def compare(ref, res):
     for e in eqs:
         for r in refs_of(e[0], []) + refs_of(e[1], []):
             if r not in syms:
-                diffs.append((r, "equation refers to %s which is no flat variable" % r))
+                diffs.append((eq_owner(e), "equation refers to %s which is no flat variable" % r,
+                              refs_of(e[0], []) + refs_of(e[1], [])))
     return diffs
 
 
@@ -568,7 +569,7 @@ def judge_all(lib, res):
         involved = [where] + (list(d[2]) if len(d) > 2 else [])
         sparents = [".".join(x.split(".")[:-1]) for x in fl["shadow_paths"]]
         if any(under(w, fl["shadow_paths"]) for w in involved) or \
-                (len(d) > 2 and any(q == "" or under(where, [q]) for q in sparents)):
+                (len(d) > 2 and any(q == "" or any(under(w, [q]) for w in involved) for q in sparents)):
             # the shadowed component itself, or an equation of the instance that declares it
             tag = KNOWN_SHADOW
         elif where in fl["dotted_attr"]:
